@@ -109,7 +109,20 @@ def gen_trees(kinds, tier, d3kinds):
     return res
 
 
-HAND = [
+def _becomes_same_class():
+    """an operand that only becomes a sum (product) through its own folding, under a sum (product) with a constant"""
+    out = []
+    for P3, P2, Q2, neutral in (("sum3", "sum2", "prod2", 1), ("prod3", "prod2", "sum2", 0)):
+        for c1 in (2, 3):
+            for c2 in (2, 4):
+                inner = (Q2, neutral, (P2, c2, "y"))
+                out += [(P3, c1, "x", inner), (P3, inner, c1, "x"), (P3, "x", inner, c1), (P2, c1, inner)]
+        out += [(P3, 3, "x", (Q2, neutral, (P2, -3, "y"))),
+                (P3, 2, (Q2, neutral, (P2, 3, "y")), (Q2, neutral, (P2, 4, "z")))]
+    return out
+
+
+HAND = _becomes_same_class() + [
     ("pow2", ("prod2", "x", "y")), ("pow3", ("prod3", "x", "y", 2)), ("powm1", ("sum2", "x", "y")), ("powm2", ("sum2", "x", 1)),
     ("pow0", ("sum2", "x", "y")), ("prod3", "x", ("sum2", "x", "y"), ("sum2", "y", "z")),
     ("prod3", 2, ("sum2", "x", 1), ("sum2", "x", -1)), ("prod2", ("sum2", "x", "y"), ("sum2", "x", ("neg", "y"))),
@@ -325,7 +338,7 @@ def check_rw(rw, d, symconst, tier, twin=False):
 
     ex = Explorer(pre=pre, max_paths=BOUNDS[tier]["max_paths"], timeout_ms=BOUNDS[tier]["solver_timeout_ms"])
     q = Query(timeout_ms=BOUNDS[tier]["solver_timeout_ms"])
-    cmp_ = H.Cmp(q, "real")
+    cmp_ = H.Cmp(q, "real", lenient=True)     # a rewrite may do anything where the input has no value
     seen_nf = False
     try:
         for path in ex.run(harness):
@@ -374,7 +387,7 @@ def check_rw(rw, d, symconst, tier, twin=False):
                 out2 = ex2
             differs, txt = H.replay_differs(
                 lambda: EvaluationMapper(cenv)(out2) if isinstance(out2, p.Expression) else H._raise_if_exc(out2),
-                lambda: (EvaluationMapper(cenv)(e2) if isinstance(e2, p.Expression) else e2) + (1 if twin else 0))
+                lambda: (EvaluationMapper(cenv)(e2) if isinstance(e2, p.Expression) else e2) + (1 if twin else 0), lenient=True)
             if not differs:
                 raise HarnessError(f"counterexample did not reproduce: {text} env {H.env_text(cenv)} c={cc}: {why} / {txt}")
             viol("value", f"{rw}({e2}) = {out2}; with {H.env_text(cenv)}: {txt}",
